@@ -47,6 +47,15 @@ def enums(tier):
         [V("A", d="300"), V("B"), V("C", "tuple"), V("D")])
     add("e_two_repr_attrs", "#[repr(u32)] #[repr(align(16))]? -> #[repr(C)] #[repr(u32)] enum {A=7,B{x:u16},C}",
         ["#[repr(C)]", "#[repr(u32)]"], "u32", [V("A", d="7"), V("B", "named"), V("C")])
+    add("e_int_then_c_hint", "#[repr(u8, C)] enum {A=200,B(u8),C} (integer hint FIRST, other hint after it in the same attribute)",
+        ["#[repr(u8, C)]"], "u8", [V("A", d="200"), V("B", "tuple"), V("C")])
+    add("e_int_then_align_hint", "#[repr(i16, align(8))] enum {A=-300,B,C=300}", ["#[repr(i16, align(8))]"], "i16",
+        [V("A", d="-300"), V("B"), V("C", d="300")])
+    add("e_usize", "#[repr(usize)] enum {A,B=usize::MAX-1,C}", ["#[repr(usize)]"], "usize", [V("A"), V("B", d="usize::MAX - 1"), V("C")])
+    add("e_isize", "#[repr(isize)] enum {A=isize::MIN,B,C=-1,D}", ["#[repr(isize)]"], "isize",
+        [V("A", d="isize::MIN"), V("B"), V("C", d="-1"), V("D")])
+    add("e_three_repr_attrs", "#[repr(C)] #[repr(i8)] #[repr(align(4))] enum {A=-1,B{x:u16},C}", ["#[repr(C)]", "#[repr(i8)]", "#[repr(align(4))]"], "i8",
+        [V("A", d="-1"), V("B", "named"), V("C")])
     add("e_first_has_fields", "#[repr(i8)] enum {A(u8),B,C=-3,D{},E}", ["#[repr(i8)]"], "i8",
         [V("A", "tuple"), V("B"), V("C", d="-3"), V("D", "brace0"), V("E")])
     add("e_generic_lt_const", "#[repr(u8)] enum G<'a, const N: usize> {A=1,B(&'a [u8;N]),C}", ["#[repr(u8)]"], "u8",
